@@ -580,6 +580,11 @@ func (fr *frame) alloc(x *ssa.Alloc, st *State) *Val {
 	}
 	r := fr.newRef(fr.sym(x), st)
 	v := &Val{T: r, Ty: x.Type()}
+	// the ghost cell of an object that the function itself allocates starts at 0 (ghost state is ours
+	// to define: 0 is "nothing read / nothing written yet" in every ghost model of the contract files)
+	if _, ok := fr.w.heapSort["GH:int"]; ok {
+		st.heap = st.heap.set("GH:int", Store(st.heap.get("GH:int"), r, IntLit(0)))
+	}
 	if _, ok := fr.w.repoStruct(el); ok {
 		fr.storeLoc(fr.ptrLoc(v, x, st, false), fr.zeroVal(el), st, x, false)
 	} else {
